@@ -168,7 +168,7 @@ def run_check(tier, seed, replay=None):
           'assumptions': ['the probe battery is a sample of core/helper behaviour; bit-identity for all inputs rests on C20_core_cfg_free being a faithful reading of the source by the translator'],
           'wall_s': round(wall, 2), 'violations': len(violations)}
     # evidence of a run against a scratch checkout (GV_REPO, development aid) never lands in /verif/evidence
-    evd = os.path.join(VERIF, 'evidence') if runner.REPO == '/repo' else os.path.join(runner.WORK, 'evidence')
+    evd = os.path.join(VERIF, 'evidence') if REPO == '/repo' else os.path.join(WORK, 'evidence')
     os.makedirs(evd, exist_ok=True)
     json.dump(ev, open(os.path.join(evd, ID + '.json'), 'w'), indent=1)
     print('C20 %s: theorems %d/%d, translator %s, builds %d (+%d negative probes), core digests %d distinct, %.1fs'
